@@ -232,7 +232,19 @@ def jobs(tier, mode="c08"):
     return out
 
 
+def extra(tier, seed):
+    """E2: CrossHair contracts of the pure-Python helpers this property rests on (thorough tier)."""
+    if tier != "thorough":
+        return None
+    from .e2 import run_specs
+    return run_specs(["where"], timeout=90)
+
+
 def replay(cx):
+    from .e2 import replay_cx
+    _e2 = replay_cx(cx)
+    if _e2 is not None:
+        return _e2
     info = cx.get("info") or {}
     model = cx.get("model") or {}
     ob = cx["ob"]
